@@ -5,7 +5,6 @@ From YK Require Import Base.Int64 Base.F64 Base.Res Preempt.Snapshot Preempt.Vic
   Preempt.TreeLemmas Preempt.VictimsProofs.
 Import ListNotations.
 Open Scope Z_scope.
-Set Default Timeout 30.
 
 Lemma get_In : forall r k v, get r k = Some v -> In (k, v) r.
 Proof.
@@ -125,8 +124,8 @@ Proof.
 Qed.
 
 (* ---- never_below_guarantee: only children above their guaranteed share receive a share ---- *)
-Lemma child_excess_above : forall c p, child_excess c = Some p -> at_or_below_guarantee c = false.
-Proof. intros c p H. unfold child_excess in H. unfold at_or_below_guarantee. destruct (_ || _); [discriminate|reflexivity]. Qed.
+Lemma child_excess_above : forall pinned c p, child_excessF pinned c = Some p -> at_or_below_guarantee c = false.
+Proof. intros pinned c p H. unfold child_excessF in H. unfold at_or_below_guarantee. destruct (_ || _); [discriminate|reflexivity]. Qed.
 
 Definition share_ok (w : world) (ir : N * res) : Prop :=
   exists c, In c (w_queues w) /\ q_id c = fst ir /\ q_leaf c = true /\ at_or_below_guarantee c = false.
@@ -152,11 +151,11 @@ Proof.
       * rewrite dist_step_crash in Hf. discriminate.
 Qed.
 
-Lemma excess_children_spec : forall w q cp, In cp (excess_children w q) ->
+Lemma excess_children_spec : forall pinned w q cp, In cp (excess_childrenF pinned w q) ->
   In (fst cp) (w_queues w) /\ at_or_below_guarantee (fst cp) = false.
 Proof.
-  intros w q cp Hcp. unfold excess_children in Hcp. apply in_flat_map in Hcp as (c & Hc & Hcp).
-  destruct (child_excess c) as [p|] eqn:E; [|contradiction]. destruct Hcp as [<-|[]]. cbn [fst].
+  intros pinned w q cp Hcp. unfold excess_childrenF in Hcp. apply in_flat_map in Hcp as (c & Hc & Hcp).
+  destruct (child_excessF pinned c) as [p|] eqn:E; [|contradiction]. destruct Hcp as [<-|[]]. cbn [fst].
   split; [now apply (children_spec w q c)|eapply child_excess_above; eassumption].
 Qed.
 
@@ -165,8 +164,8 @@ Lemma distribute_shares : forall pinned fuel w q pp l,
 Proof.
   intros pinned fuel. induction fuel as [|f IH]; intros w q pp l H ir Hin; cbn [distributeF] in H.
   - inversion H; subst. contradiction.
-  - pose proof (excess_children_spec w q) as Hcs.
-    destruct (excess_children w q) as [|c0 ct]; [inversion H; subst; contradiction|].
+  - pose proof (excess_children_spec pinned w q) as Hcs.
+    destruct (excess_childrenF pinned w q) as [|c0 ct]; [inversion H; subst; contradiction|].
     destruct pp as [pp|]; [|destruct pinned; [discriminate|inversion H; subst; contradiction]].
     cbv zeta in H. eapply (dist_fold_shares w _ _ _ _ [] l Hcs); [|intros x []|exact H|exact Hin].
     intros c p l' Hl' x Hx. eapply IH; eassumption.
@@ -192,7 +191,7 @@ Qed.
 Lemma distribute_no_crash : forall fuel w q pp, distributeF false fuel w q pp <> QCrash.
 Proof.
   induction fuel as [|f IH]; intros w q pp; cbn [distributeF]; [discriminate|].
-  destruct (excess_children w q) as [|c0 ct]; [discriminate|].
+  destruct (excess_childrenF false w q) as [|c0 ct]; [discriminate|].
   destruct pp as [pp|]; [|discriminate]. cbv zeta. apply dist_fold_no_crash. intros c p. apply IH.
 Qed.
 Theorem quota_never_crashes : forall w q, quota_contexts w q <> QCrash.
